@@ -15,7 +15,11 @@ RULE = ("(1) Nodes.typed_value vs the model on every text of length <= L over 16
         "boolean-looking / empty / plain strings; needles include every spelling class and regular expressions, valid "
         "and invalid); (3) seeded random scalars x random terms x 9 operators; (4) inversion through the real "
         "Processor.get_nodes on every list of <= 3 scalars from an 8-value pool and on hashes (key names, attribute) and "
-        "sets x operators x terms x plain/inverted; (5) the same through collectors: documents of 3 collections of numbers whose "
+        "sets x operators x terms x plain/inverted; (4b) `[.OP term]` / `[.!OP term]` over lists of records: every list of <= 3 members (a sample of "
+        "those of 4) over {null, three hashes, the empty hash, two scalars} with at least one hash (Arrays-of-Hashes, Arrays-of-Hashes with "
+        "null members, records mixed with scalars), at the root and under a key, x 9 operators x terms naming a key of some / of no record, "
+        "the text of null, the empty term - judged without a model: no exception but a YAML Path error, inverted = exactly the members the "
+        "plain search does not yield, a null member selected exactly when the typed rules match null; (5) the same through collectors: documents of 3 collections of numbers whose "
         "text order differs from their numeric order (digit counts, negatives, floats; some with numeric-looking / plain "
         "strings), every grouping (X), ((X)), (X)+(Y), ((X)+(Y)), (((X)+(Y))+(Z)), ((X)+((Y)+(Z))) ... of their members, both "
         "notations, followed by [.OP term] plain and inverted: the result must be the collected members the typed rules "
@@ -364,6 +368,117 @@ def inversion_cases(rng, tier):
 
 
 
+# --------------------------------------------------------------------------- `.` searches over lists of records
+
+REC_POOL = [{"k": "null"},
+            {"k": "map", "e": [["name", {"k": "str", "v": "a"}]]},
+            {"k": "map", "e": [["kind", {"k": "int", "v": "1"}], ["name", {"k": "str", "v": "b"}]]},
+            {"k": "map", "e": [[5, {"k": "str", "v": "x"}]]},
+            {"k": "map", "e": []},
+            {"k": "int", "v": "5"}, {"k": "str", "v": "name"}]
+REC_TERMS = ["name", "kind", "5", "absent", "None", "a", "1", "n", "", "true"]
+
+
+def record_cases(rng, tier):
+    """Lists of records: every list of <= 3 members (and a sample of the lists of 4) over {null, three hashes, the empty
+    hash, two scalars} holding at least one hash - so: Arrays-of-Hashes, Arrays-of-Hashes with null members (a record
+    left empty), lists mixing records and scalars - at the root and under a key x the nine operators x terms that name a
+    key of some records, of none, that equal / order against the text of null, the empty term."""
+    cases = []
+    n_pool = len(REC_POOL)
+    lists = [t for n in (1, 2, 3) for t in itertools.product(range(n_pool), repeat=n)]
+    fours = list(itertools.product(range(5), repeat=4))
+    lists += rng.sample(fours, 60 if tier == "quick" else len(fours))
+    for idxs in lists:
+        if not any(REC_POOL[i]["k"] == "map" for i in idxs):
+            continue
+        members = [REC_POOL[i] for i in idxs]
+        for m in cc.METHODS:
+            terms = REC_TERMS if len(idxs) <= 2 else rng.sample(REC_TERMS, 3)
+            for t in terms:
+                if m == "REGEX" and t == "":
+                    continue
+                cases.append({"members": members, "under": (len(idxs) + len(t)) % 2 == 1, "m": m, "t": t})
+    return cases
+
+
+def rec_chunk(cases):
+    """`[.OP term]` and `[.!OP term]` over a list of records (hashes, null members, stray scalars), on the real Processor:
+    the comparison never raises for a well-formed term; the inverted search yields exactly the members the plain search
+    does not; a null member is a scalar candidate, selected exactly when the typed rules match null against the term
+    (model).  Which records a `.` search selects is the evaluator's subject (C01), not judged here."""
+    drv = core.Driver()
+    stats = {"n": 0, "oom": 0, "nontrivial": 0, "skipped": 0, "sites": {}}
+    viol = []
+    prepared = []
+    for c in cases:
+        seq = {"k": "seq", "i": c["members"]}
+        docj = {"k": "map", "e": [["records", seq], ["z", {"k": "int", "v": "0"}]]} if c["under"] else seq
+        pre = "records" if c["under"] else ""
+        tt = "/%s/" % c["t"] if c["m"] == "REGEX" else c["t"]
+        outs = []
+        okp = True
+        for inv in ("", "!"):
+            path = "%s[.%s%s%s]" % (pre, inv, OPS[c["m"]], tt)
+            from yamlpath import YAMLPath
+            from yamlpath.path import SearchTerms
+            st, val = cc.guarded(lambda: list(YAMLPath(path).escaped)[-1][1])
+            if st != "ok" or not (isinstance(val, SearchTerms) and val.method.name == c["m"] and val.term == c["t"]
+                                  and val.attribute == "." and bool(val.inverted) == bool(inv)):
+                okp = False
+                break
+            _terms, out = run_query(build_doc(docj), path)
+            outs.append((path, out))
+        stats["n"] += 2
+        if not okp:
+            stats["skipped"] += 1
+            continue
+        prepared.append((c, docj, outs))
+    model = drv.ask([dict({"op": "C12.match", "m": c["m"], "h": {"k": "null"}, "t": c["t"]},
+                          **({"rx": [[c["t"], "None", cc.rx_answer(c["t"], "None")]]} if c["m"] == "REGEX" else {}))
+                     for (c, _d, _o) in prepared])
+    for (c, docj, outs), mo in zip(prepared, model):
+        case = dict(c, kind="records", doc=docj)
+        shape = "aoh+null" if all(x["k"] in ("map", "null") for x in c["members"]) and any(x["k"] == "null" for x in c["members"]) \
+            else "aoh" if all(x["k"] == "map" for x in c["members"]) else "records+scalars"
+        stats["sites"]["records:" + shape] = stats["sites"].get("records:" + shape, 0) + 1
+        n = len(c["members"])
+        what = " over the list of records %s" % json.dumps(codec.json_to_plain(docj))
+        bad = False
+        for (path, out), which in zip(outs, ("plain", "inverted")):
+            if "timeout" in out:
+                viol.append(("timeout", path + what + " did not return", case)); bad = True
+            elif "exc" in out:
+                if c["m"] == "REGEX" and out["exc"] == "ypath":
+                    bad = True          # an invalid regular expression is no well-formed term
+                    continue
+                viol.append(("%s@%s" % (out["exc"], out["site"]),
+                             "%s search %s%s raised %s for a well-formed term (list of records: %s)" % (which, path, what, out["exc"], shape), case))
+                bad = True
+        if bad:
+            continue
+        plain, inv = outs[0][1]["refs"], outs[1][1]["refs"]
+        compl = [i for i in range(n) if i not in plain]
+        if inv != compl or any(i not in range(n) for i in plain):
+            viol.append(("inverted-not-complement:records",
+                         "%s yielded the members %s, %s the members %s of %d%s" % (outs[1][0], inv, outs[0][0], plain, n, what), case))
+            continue
+        if "ok" in mo.get("model", {}):
+            nulls = [i for i, x in enumerate(c["members"]) if x["k"] == "null"]
+            got = [i for i in nulls if i in plain]
+            want = nulls if mo["model"]["ok"] else []
+            if got != want:
+                viol.append(("scan-mismatch:records:null-member",
+                             "%s selected the null members %s of %s; the typed rules %s null against %r%s"
+                             % (outs[0][0], got, nulls, "match" if mo["model"]["ok"] else "do not match", c["t"], what), case))
+                continue
+        else:
+            stats["oom"] += 1
+        if plain and inv:
+            stats["nontrivial"] += 1
+    return stats, viol[:40], [], []
+
+
 # --------------------------------------------------------------------------- searches over collector results
 
 COLL_NUMS = [1, 9, 10, 100, 2, 20, 5, -3, -20, 1000, 0, 99]
@@ -633,6 +748,8 @@ def run(chk: core.Check):
             res = [inv_chunk([c])]
         elif c.get("kind") == "collector":
             res = [coll_chunk([c])]
+        elif c.get("kind") == "records":
+            res = [rec_chunk([c])]
         elif c.get("kind") == "typed" or "text" in c:
             res = [cc.compare_typed_chunk([c["text"]]) + ([],)]
         else:
@@ -679,6 +796,11 @@ def run(chk: core.Check):
     inv = inversion_cases(rng, tier)
     for st, viol, disag, samples in core.pmap(inv_chunk, core.chunked(inv, 64)):
         _absorb(chk, "inversion", st, viol, disag, samples)
+    # (4b) `.` searches over lists of records (hashes, null members, stray scalars)
+    recs = record_cases(random.Random(chk.seed * 3 + 1), tier)
+    chk.extra_cov["record_list_cases"] = len(recs)
+    for st, viol, disag, samples in core.pmap(rec_chunk, core.chunked(recs, 64)):
+        _absorb(chk, "records", st, viol, disag, samples)
     # (5) the operators behind (nested) collectors
     colls = collector_cases(random.Random(chk.seed * 13 + 5), tier)
     chk.extra_cov["collector_cases"] = len(colls)
